@@ -26,7 +26,7 @@ def run(rep, work, tier, seed):
         mc = dict(NTasks=4, MaxDepth=2, MaxScopes=3, MaxOps=8, Bug="none")
         conf = dict(NTasks=3, MaxDepth=2, MaxScopes=3, MaxOps=6, Bug="none")
     else:
-        mc = dict(NTasks=5, MaxDepth=2, MaxScopes=4, MaxOps=9, Bug="none")
+        mc = dict(NTasks=5, MaxDepth=2, MaxScopes=4, MaxOps=8, Bug="none")
         conf = dict(NTasks=4, MaxDepth=2, MaxScopes=3, MaxOps=7, Bug="none")
     rep.extra["constants"] = dict(model=mc, conformance=conf)
     leg_m(rep, work, SPEC, f"mc_{tier}", cfg_text(mc, spec="Spec", invariants=INVS, properties=PROPS),
